@@ -21,6 +21,7 @@ public:
      * @return false fail.
      */
     bool gain_the_right() {
+        YAKUSHIMA_VERIF_POINT(ATOMIC, this);
         bool expected(running_.load(std::memory_order_acquire));
         for (;;) {
             if (expected) { return false; }
@@ -43,6 +44,7 @@ public:
     }
 
     void set_begin_epoch(const Epoch epoch) {
+        YAKUSHIMA_VERIF_POINT(SET_BEGIN_EPOCH, this);
         begin_epoch_.store(epoch, std::memory_order_relaxed);
     }
 
